@@ -81,6 +81,16 @@ def gen_cases(ctx, rng):
             info["differing_at"] = len(reqs) - 1
             info["differing_name"] = changed[j]["name"]
             stats["differing"] += 1
+        if rng.chance(1, 3) and len(entries) > 1:
+            # the same entries once more, one of the later ones now switching its (running) proxy off: the response still lists the
+            # resulting proxies in request order
+            again = json.loads(json.dumps(entries))
+            j = rng.range(1, len(again) - 1)
+            again[j]["enabled"] = False
+            if rng.chance(1, 2):
+                again[j]["upstream"] = "moved:7"
+            reqs.append(A.req("POST", "/populate", A.J(again)))
+            stats["later_entry_switched_off"] = stats.get("later_entry_switched_off", 0) + 1
         if rng.chance(1, 2):
             reqs.append(A.req("POST", "/reset"))
             info["reset_at"] = len(reqs) - 1
@@ -119,6 +129,13 @@ def oracle(case, resps):
                     kinds.append("disabled" if dis else sp)
             return (k, "repeating an identical populate body changed the proxies (toxics lost / proxy replaced) for entries spelled/flagged: %s"
                     % ",".join(sorted(set(kinds))))
+    # every accepted populate lists the resulting proxies in request order, whatever the entries do
+    for k, (q, rsp) in enumerate(zip(case["reqs"], resps)):
+        if q["path"] == "/populate" and rsp["status"] == 201 and q["json"] and q["json"][0] == "arr":
+            want = [dict(e[1]).get("name", ("str", None))[1] for e in q["json"][1] if e[0] == "obj"]
+            pl = A.canon_payload(rsp["body"])
+            if pl[0] == "populate" and [p["name"] for p in pl[1]] != want:
+                return (k, "populate response lists %s for the request order %s" % ([p["name"] for p in pl[1]], want))
     if "differing_at" in info and info["differing_at"] < len(resps):
         k = info["differing_at"]
         if resps[k]["status"] == 201:
@@ -229,7 +246,7 @@ def run(ctx):
     try:
         return G.run_api_property(
             ctx, PID, gen_cases, oracle,
-            classify=lambda w: "not-idempotent" if "identical populate" in w else ("replace" if "differing" in w else ("reset" if "reset" in w else "other")),
+            classify=lambda w: "not-idempotent" if "identical populate" in w else ("replace" if "differing" in w else ("reset" if "reset" in w else ("response-order" if "request order" in w else "other"))),
             rule="populate of 1-3 proxies in three listen spellings (ip:port, localhost:port, :port), enabled or not, toxics added, the same body "
                  "repeated 1-4 times, then a differing entry and/or a reset; real-socket scenarios check that live connections survive an identical "
                  "populate and a reset and are dropped by a replacing entry; non-trivial = at least one repeat; distinct by JSON",
